@@ -8,6 +8,7 @@ from common import Report, run_model_parallel, freeze
 from props import base
 
 FAMILY = "corr:cart:call"
+MAX_RECORDED = 20      # replay files written per run; further oracle failures are only counted
 BIG = 1 << 60          # runner/main.ml carries wire integers in 62 bits
 
 
@@ -359,7 +360,9 @@ def run(tier, seed):
             rep.count("zero-input-boxes:%d" % min(3, sum(1 for i in ids if ci.DOM[i] == 0)))
             rep.count("zero-output-boxes:%d" % min(3, sum(1 for i in ids if ci.COD[i] == 0)))
         bad = oracle(ci, p, meta, runs)
-        if bad:
+        if bad and len(rep.violations) >= MAX_RECORDED:
+            rep.count("violations-beyond-the-first-%d-not-recorded" % MAX_RECORDED)
+        elif bad:
             rep.violation(bad, {"program": p, "pretty": ci.pretty(p), "impl": impl,
                                 "replay": snippet(p)})
     saved = base.snippet
